@@ -6,6 +6,7 @@ import (
 	"encoding/hex"
 	"errors"
 	"fmt"
+	"sort"
 	"strings"
 
 	"verifsim/simkern"
@@ -163,6 +164,7 @@ func C39(e *simkern.Env) {
 			}
 		}
 
+		var closerTask *simkern.Task
 		for i := 0; i < nEmit; i++ {
 			i := i
 			name := fmt.Sprintf("emitter%d", i)
@@ -201,7 +203,7 @@ func C39(e *simkern.Env) {
 				}
 			})
 		}
-		sim.Spawn("closer", func() {
+		closerTask = sim.Spawn("closer", func() {
 			sim.Yield("closer.wait", func() bool { return nLeft >= closeAfter })
 			closeEntered = next()
 			_ = hook.Close()
@@ -229,6 +231,35 @@ func C39(e *simkern.Env) {
 				return []simkern.Action{{Name: "stall log", Weight: 3, Do: func() { w.Stalled = true }}}
 			},
 			Check: func() error {
+				if asyncOn && closeEntered != 0 && closeReturned == 0 && !e.Violated() {
+					// Close is draining. An emit call that had picked up the async
+					// emitter before Close swapped it out is still an enqueue and
+					// still must not wait for the writer (later emit calls are
+					// synchronous by then and may). It does wait if it is parked
+					// inside the emitter, cannot proceed, and nothing in the system
+					// can move until the stalled file is released.
+					var stuck []string
+					anyReady := false
+					for i, t := range tasks {
+						if inEmit[i] == nil {
+							continue
+						}
+						parked, site := t.Parked()
+						switch {
+						case parked && strings.Contains(site, "accesslog_async.go") && !t.Ready():
+							stuck = append(stuck, fmt.Sprintf("emitter %d at %s", i, site))
+						case t.Ready():
+							anyReady = true
+						}
+					}
+					if len(stuck) > 0 && !anyReady && w.Waiting > 0 && !closerTask.Ready() {
+						sort.Strings(stuck)
+						e.Violate("enqueue-blocks", "enqueue-waits-for-draining-close",
+							"async emission on, Close is draining the queue into a stalled file: %s cannot proceed until the file is released (%s)", strings.Join(stuck, ", "), sim.Stuck())
+						return errors.New("violation")
+					}
+					return nil
+				}
 				if !asyncOn || closeEntered != 0 || e.Violated() {
 					return nil
 				}
@@ -558,6 +589,7 @@ func init() {
 		Quick: 6000, Thorough: 300000,
 		FaultKinds: []string{"writer-stall"},
 		Assumptions: []string{
+			"while Close is draining, an emit call that had loaded the async emitter before Close swapped it out is still an enqueue and is held to the never-blocks clause (judged when it is parked inside the emitter, cannot proceed, and nothing can move until the stalled file is released); emit calls that start after the swap are synchronous and may wait for the file",
 			"'enqueued before close' = the emit call had returned before Close was entered; records whose emit call overlaps or follows Close are unconstrained (they may be written, counted or discarded)",
 			"'written' for such a record means on the log by the time Close returns (Close is documented to drain); a record that reaches the log only after Close returned is reported as close-returned-before-drain",
 			"a rate of 1.0 is 'sampling off' (the documented default): every record must be kept and sample_rate is not demanded",
